@@ -167,18 +167,14 @@ theorem storyLevel_filter (k : Kind) (rc base : Xml) (mid : Option PyExc)
     simp only [mergeRc]
     split
     · rfl
-    · split
-      · rfl
-      · apply insertDedup_filter
-        exact qfalse_findall base (fun x hx => hx)
+    · apply insertDedup_filter
+      exact qfalse_findall base (fun x hx => hx)
   case EAStoryInsert =>
     simp only [mergeRc]
     split
     · rfl
-    · split
-      · rfl
-      · apply insertDedup_filter
-        exact qfalse_elemsOf _ (fun x hx => hx)
+    · apply insertDedup_filter
+      exact qfalse_elemsOf _ (fun x hx => hx)
   case StoryReplace =>
     simp only [mergeRc]
     rw [findRequired_ok _ _ _ _]
